@@ -428,7 +428,9 @@ pub fn torn(c: &Torn, st: &mut Stats) -> Result<(), String> {
         accesses: 0,
     }));
     with(|w| {
-        w.dev.offered = (1 << 32) | 1; // VERSION_1 + (console) SIZE
+        // VERSION_1 + (console) SIZE; for the network device MAC, without which the `mac` field is
+        // not valid and a driver need not read it
+        w.dev.offered = (1 << 32) | if matches!(c.drv, Drv::Net) { 1 << 5 } else { 1 };
         w.dev.config = snapshot_bytes(c.drv, 1, c.family);
         w.dev.default_max = 256;
         w.spin_limit = 1_000_000;
